@@ -1,11 +1,27 @@
 use grafeo_engine::GrafeoDB;
+use grafeo_common::types::{NodeId, Value};
 fn main() {
     let db = GrafeoDB::new_in_memory();
     let s = db.session();
-    let setup: Vec<String> = std::env::args().skip(1).collect();
-    for q in &setup {
+    let mut nodes: Vec<NodeId> = Vec::new();
+    for q in std::env::args().skip(1) {
         let (lang, text) = q.split_once(':').unwrap();
+        if lang == "node" {
+            // node:A,C[:k=1,k2=2]
+            let mut it = text.split(':');
+            let labels: Vec<&str> = it.next().unwrap().split(',').filter(|x| !x.is_empty()).collect();
+            let props: Vec<(&str, Value)> = it.next().map(|p| p.split(',').map(|kv| { let (k, v) = kv.split_once('=').unwrap(); (k, Value::Int64(v.parse().unwrap())) }).collect()).unwrap_or_default();
+            nodes.push(db.create_node_with_props(&labels, props));
+            continue;
+        }
+        if lang == "edge" {
+            // edge:0:1:R[:w=0]
+            let p: Vec<&str> = text.split(':').collect();
+            let e = db.create_edge(nodes[p[0].parse::<usize>().unwrap()], nodes[p[1].parse::<usize>().unwrap()], p[2]);
+            if let Some(kv) = p.get(3) { let (k, v) = kv.split_once('=').unwrap(); db.set_edge_property(e, k, Value::Int64(v.parse().unwrap())); }
+            continue;
+        }
         let r = match lang { "cypher" => s.execute_cypher(text), "gremlin" => s.execute_gremlin(text), _ => s.execute(text) };
-        match r { Ok(r) => println!("{q}\n  -> {} rows: {:?}", r.rows.len(), r.rows.iter().take(20).collect::<Vec<_>>()), Err(e) => println!("{q}\n  -> ERR {e}") }
+        match r { Ok(r) => println!("{q}\n  -> {} rows: {:?}", r.rows.len(), r.rows.iter().take(12).collect::<Vec<_>>()), Err(e) => println!("{q}\n  -> ERR {e}") }
     }
 }
